@@ -9,3 +9,4 @@ for s in $seeds; do
     [ $rc -ne 0 ] && echo "$out" | grep -E "VIOLATION|KNOWN|Traceback|Error" | head -5
   done
 done
+exit 0
